@@ -716,6 +716,9 @@ inductive Frame
   | pipeF (ln : Ln) (l : Expr) (args : ExprList)
   | pipeA (ln : Ln) (l f : Expr) (pre post : ExprList)
   | subE (pre post : ExprList)
+  | ifLetE (ln gln : Ln) (en it : String) (t f : Expr)
+  | ifLetT (ln gln : Ln) (en it : String) (e f : Expr)
+  | ifLetF (ln gln : Ln) (en it : String) (e t : Expr)
 
 def Frame.plug : Frame → Expr → Expr
   | .enumVal ln item, x => .enumVal ln x item
@@ -758,6 +761,9 @@ def Frame.plug : Frame → Expr → Expr
   | .pipeF ln l args, x => .pipe ln l x args
   | .pipeA ln l f pre post, x => .pipe ln l f (pre.app (.cons x post))
   | .subE pre post, x => .sub (pre.app (.cons x post))
+  | .ifLetE ln gln en it t f, x => .ifLet ln gln en it x t f
+  | .ifLetT ln gln en it e f, x => .ifLet ln gln en it e x f
+  | .ifLetF ln gln en it e t, x => .ifLet ln gln en it e t x
 
 /-- the symbol table in force at the hole, computed by replaying what `tc` does before it gets
 there; an error means `tc` stops before the hole with that very diagnostic -/
@@ -825,5 +831,16 @@ def Frame.env (Γ : Env) : Frame → Except Diag Env
   | .pipeF _ l _ => do let _ ← tc Γ l; pure Γ
   | .pipeA _ l f pre _ => do let _ ← tc Γ l; let _ ← tc Γ f; let _ ← tcArgs Γ pre; pure Γ
   | .subE pre _ => do let _ ← tcRows Γ pre; pure Γ
+  | .ifLetE _ _ _ _ _ _ => .ok Γ
+  | .ifLetT _ gln en it e _ => do
+    let ce ← tc Γ e
+    match ce.ct with
+    | .val (.enum _) => do guardItemPre Γ gln en it; pure Γ
+    | _ => .error ⟨e.ln, .matchNotEnum⟩
+  | .ifLetF _ gln en it e t => do
+    let ce ← tc Γ e
+    match ce.ct with
+    | .val (.enum _) => do guardItemPre Γ gln en it; let _ ← tc Γ t; pure Γ
+    | _ => .error ⟨e.ln, .matchNotEnum⟩
 
 end Never.Tc
